@@ -37,6 +37,7 @@ func specC16() *propertySpec {
 			{"C16-R4", "same-directory: CreateTemp's directory is filepath.Dir(filename), created by a checked MkdirAll before", ruleC16R4},
 			{"C16-R5", "disjoint-names: the temp pattern's first character is outside the alphabet of discovery names (letters, digits, '-', '_') and it does not end in .fail", func(r *Run) { ruleC16R5(r); ruleDiscoveryIsThePattern(r) }},
 			{"C16-R6", "temp-removed (advisory): a deferred os.Remove(f.Name()) is registered right after creation", ruleC16R6},
+			{"C16-R7", "published-once-complete: Check publishes a fail file under its final name once per failure, with the captured output already in it: a second save under the same name, or a first save without the output, leaves a complete-looking file that differs from an uninterrupted save for every crash point in between", ruleC16R7},
 		},
 	}
 }
@@ -379,6 +380,8 @@ func specC06() *propertySpec {
 				ruleSharedContents(r, map[string]bool{"loadFailFile": true, "saveFailFile": true, "checkFailFile": true, "failFileName": true, "failFilePattern": true, "kindaSafeFilename": true, "doCheck": true, "checkTB": true, "captureTestOutput": true}, 1)
 			}},
 			{"C06-R8", "written-whole-and-in-order: every part of the fail file is written through one sink to the temporary file, a buffered sink is flushed before the file is closed and renamed; write errors stop the save (shared with C16-R1/R2/R3)", func(r *Run) { ruleC16R1(r); ruleC16R2(r); ruleC16R3(r) }},
+			{"C06-R9", "replay-reads-what-was-saved: the next run feeds the saved words to the property one per draw, masked like the recording run (shared with C04-R3)", func(r *Run) { ruleC04R3(r); ruleC04R3buf(r) }},
+			{"C06-R10", "same-generator-in-the-next-run: the replay of the fail file draws from freshly constructed generators, the saved buffer was minimised against generators every earlier test case and shrink attempt of the failing run had drawn from: same drawn values only if no draw stores through or hands out generator-owned storage (shared with C15-R3)", ruleC15R3},
 			{"C06-R6", "saved-is-reported: captureTestOutput/saveFailFile/final replay use doCheck's buffer (#5) and seed (#3); saved iff failfile == \"\" && !nofailfile; target failFileName(tb.Name())", func(r *Run) { ruleC01R1(r); ruleC06R6(r) }},
 		},
 	}
@@ -574,17 +577,28 @@ func ruleC06R2(r *Run) {
 	// result: the builder's string, possibly + "_"
 	for _, ret := range returnsOf(fn) {
 		ex := p.expr(p.res(ret, 0))
-		ok := false
-		for m := range mapped {
-			if ex == m || ex == "("+m+" + \"_\")" {
-				ok = len(mapped) == 1 && len(builders) == 0
+		ok := true
+		nA := 0
+		// every value the result can take (name, or name + "_" for reserved names)
+		for _, a := range p.alternatives(p.res(ret, 0), 0) {
+			nA++
+			ax := p.expr(a.Val)
+			okA := false
+			for m := range mapped {
+				if ax == m || ax == "("+m+" + \"_\")" {
+					okA = len(mapped) == 1 && len(builders) == 0
+				}
+			}
+			for b := range builders {
+				if ax == "(*strings.Builder).String("+b+")" || ax == "((*strings.Builder).String("+b+") + \"_\")" {
+					okA = len(builders) == 1
+				}
+			}
+			if !okA {
+				ok = false
 			}
 		}
-		for b := range builders {
-			if ex == "(*strings.Builder).String("+b+")" || ex == "((*strings.Builder).String("+b+") + \"_\")" {
-				ok = len(builders) == 1
-			}
-		}
+		ok = ok && nA > 0
 		r.Check("kindaSafeFilename#result", ret.Pos(), ok, "returns the sanitised string (optionally with '_' appended)", "kindaSafeFilename returns "+ex)
 	}
 }
@@ -790,7 +804,8 @@ func ruleC06R5(r *Run) {
 		r.Fail("doCheck#replay-loop", cf.Instr.Pos(), "checkFailFile is not called in a loop over the fail files")
 		return
 	}
-	r.Check("doCheck#replay-before-random", fb.Instr.Pos(), loop.Header.Dominates(fb.Instr.Block()) && !loop.Body[fb.Instr.Block()] && !reachable(fb.Instr, cf.Instr, nil),
+	lfb := p.liftTo(fb.Instr, loop.Header.Parent()) // findBug may be called from a helper of doCheck
+	r.Check("doCheck#replay-before-random", fb.Instr.Pos(), lfb != nil && loop.Header.Dominates(lfb.Block()) && !loop.Body[lfb.Block()] && !reachable(fb.Instr, cf.Instr, nil),
 		"the replay loop is passed on every path to findBug and never entered after it", "findBug can run before (or without passing) the fail-file replay loop")
 	// glob is on the path when globFailFiles
 	okGlob := holds(p.facts(gl.Instr), "$globFailFiles", "==", "true") && !reachable(fb.Instr, gl.Instr, nil) && reachable(gl.Instr, cf.Instr, nil)
@@ -815,7 +830,7 @@ func ruleC06R5(r *Run) {
 				case *ssa.Slice:
 					vs = p.variadicArgs(x)
 				case *ssa.Call:
-					if p.calleeKey(x.Common()) == "builtin:append" && isNilConst(p.resolve(x.Common().Args[0])) {
+					if p.calleeKey(x.Common()) == "builtin:append" && p.isEmptySlice(x.Common().Args[0]) {
 						vs = p.variadicArgs(x.Common().Args[1])
 					}
 				}
@@ -838,10 +853,15 @@ func ruleC06R5(r *Run) {
 	// reproducing file returns valid=0 and its name
 	n := 0
 	for _, ret := range returnsOf(dc) {
-		if !loop.Body[ret.Block()] && !dominatesBlock(cf.Instr.Block(), ret.Block()) {
+		// a return forwarded from an inlined helper is located by the helper's call site
+		var at ssa.Instruction = ret
+		if l := p.liftTo(ret, dc); l != nil {
+			at = l
+		}
+		if !loop.Body[at.Block()] && !dominatesBlock(cf.Instr.Block(), at.Block()) {
 			continue
 		}
-		if reachable(fb.Instr, ret, nil) {
+		if at == fb.Instr || reachable(fb.Instr, at, nil) {
 			continue
 		}
 		n++
@@ -934,7 +954,7 @@ func ruleC06R6(r *Run) {
 		fbs := p.callsTo(dfn, "findBug")
 		nAfter := 0
 		for _, ret := range returnsOf(dfn) {
-			if len(fbs) != 1 || len(ret.Results) < 5 || !dominates(fbs[0].Instr, ret) {
+			if len(fbs) != 1 || p.nres(ret) < 5 || !dominates(fbs[0].Instr, ret) {
 				continue
 			}
 			nAfter++
@@ -1455,7 +1475,6 @@ func isAppendPhi(p *Program, v ssa.Value, want string) bool {
 	return found
 }
 
-
 // ruleDiscoveryIsThePattern: the disjointness of temporary and final names is relative to what the next run looks for:
 // doCheck must glob exactly failFilePattern(tb.Name()), not something wider (a directory-wide `*` also matches the
 // dot-named temporaries a crashed save leaves behind).
@@ -1471,4 +1490,51 @@ func ruleDiscoveryIsThePattern(r *Run) {
 		r.Check("doCheck#glob-arg", gl.Instr.Pos(), strings.HasPrefix(p.expr(gl.Arg(0)), "failFilePattern("), "Glob is applied to failFilePattern(...)", "Glob is applied to "+p.expr(gl.Arg(0))+": temporaries of an interrupted save can match it")
 	}
 	r.Floor("Glob calls in doCheck", n, 1)
+}
+
+// isEmptySlice: v is nil or a freshly made slice of length 0 (make([]T, 0, n)).
+func (p *Program) isEmptySlice(v ssa.Value) bool {
+	v = p.resolve(v)
+	if isNilConst(v) {
+		return true
+	}
+	switch x := v.(type) {
+	case *ssa.MakeSlice:
+		n, ok := constInt(p.resolve(x.Len))
+		return ok && n == 0
+	case *ssa.Slice:
+		if _, isAlloc := x.X.(*ssa.Alloc); isAlloc && x.High != nil {
+			n, ok := constInt(p.resolve(x.High))
+			return ok && n == 0 && x.Low == nil
+		}
+	}
+	return false
+}
+
+func ruleC16R7(r *Run) {
+	p := r.P
+	ct := r.MustFn("checkTB")
+	if ct == nil {
+		return
+	}
+	saves := p.callsTo(ct, "saveFailFile")
+	r.Floor("saveFailFile calls in checkTB", len(saves), 1)
+	for _, a := range saves {
+		for _, b := range saves {
+			if a != b && reachable(a.Instr, b.Instr, nil) {
+				r.Fail("checkTB#save-once", b.Instr.Pos(), "a second saveFailFile is reachable after the one at "+p.pos(a.Instr.Pos())+": between the two renames (and after a crash there) the published file is not what an uninterrupted save produces")
+			}
+		}
+		okOut := false
+		if c, ok := p.resolve(a.Arg(2)).(*ssa.Call); ok && p.calleeKey(c.Common()) == "captureTestOutput" {
+			okOut = true
+		}
+		r.Check("checkTB#save.output", a.Instr.Pos(), okOut, "the published file contains the captured output", "saveFailFile publishes output "+p.expr(a.Arg(2))+" instead of the captured test output")
+	}
+	if len(saves) == 1 {
+		r.OK("checkTB#save-once", saves[0].Instr.Pos(), "one saveFailFile call in checkTB, not in a loop")
+		if reachable(saves[0].Instr, saves[0].Instr, nil) {
+			r.Fail("checkTB#save-once.loop", saves[0].Instr.Pos(), "saveFailFile is called in a loop")
+		}
+	}
 }
